@@ -3,6 +3,11 @@
    and report the cases where they differ. *)
 let () =
   let mode = Sys.argv.(1) and file = Sys.argv.(2) in
+  if mode = "tm" then begin
+    let (n, bad) = Run_tm.run_file file in
+    Printf.printf "SUMMARY cases=%d mismatches=%d\n" n bad;
+    exit (if bad = 0 then 0 else 3)
+  end;
   if mode = "hs" then begin
     let (n, bad) = Run_hs.run_file file in
     Printf.printf "SUMMARY cases=%d mismatches=%d\n" n bad;
@@ -16,6 +21,7 @@ let () =
   let eval = match mode with
     | "c19" -> Run_c19.eval_line
     | "queue" -> Run_queue.eval_line
+    | "noise" -> Run_noise.eval_line
     | _ -> failwith ("unknown mode " ^ mode) in
   let ic = open_in file in
   let n = ref 0 and bad = ref 0 in
